@@ -8,12 +8,14 @@
 #include <stdlib.h>
 #include <string.h>
 
-#define MODEL_CAP (1 << 16)
+#define MODEL_CAP (1 << 18)
 struct st
 {
 	struct printbuf *pb;
 	unsigned char *m; /* model bytes */
 	int len;
+	int started; /* the initial-state choice (pre-filled size) has been made */
+	int cap_size; /* growth cap for this history */
 	int dead; /* a check failed: stop judging this history */
 };
 
@@ -29,8 +31,11 @@ enum
 	K_APPEND_FAST,
 	K_MEMSET,
 	K_SPRINT,
-	K_RESET
+	K_RESET,
+	K_START /* first step: start from a buffer already holding this many bytes (non-initial states) */
 };
+static const int start_fill[] = {0, 31, 4000, 8190, 16383, 65530};
+#define NSTART 6
 #define NAPP 11
 #define NFAST 7
 #define NOFF 9
@@ -99,6 +104,7 @@ static void opname(int op, sb_t *o)
 	case K_MEMSET: sb_printf(o, "memset(off#%d,len#%d)", a / NLEN, a % NLEN); break;
 	case K_SPRINT: sb_printf(o, "sprintbuf(%d bytes)", sprint_sizes[a]); break;
 	case K_RESET: sb_puts(o, "reset"); break;
+	case K_START: sb_printf(o, "start with %d bytes", start_fill[a]); break;
 	}
 }
 
@@ -281,6 +287,29 @@ static void apply(void *vs, int op, int check)
 		if (check)
 			compare(s, 1, "reset");
 		break;
+	case K_START:
+	{
+		int n = start_fill[a];
+		s->started = 1;
+		s->cap_size = n < 4096 ? 4096 : 4 * n;
+		/* filled in uneven pieces so that the doublings happen at different fill levels */
+		while (s->len < n)
+		{
+			int piece = n - s->len < 997 ? n - s->len : 997;
+			for (int k = 0; k < piece; k++)
+				srcbuf[k] = pat(s->len + k);
+			if (printbuf_memappend(pb, srcbuf, piece) != piece)
+			{
+				fail(s, "append-failed", "pre-fill append of %d bytes at %d failed", piece, s->len);
+				return;
+			}
+			memcpy(s->m + s->len, srcbuf, (size_t)piece);
+			s->len += piece;
+		}
+		if (check)
+			compare(s, 1, "pre-fill");
+		break;
+	}
 	}
 }
 
@@ -288,9 +317,18 @@ static int menu(void *vs, int *ops, int cap)
 {
 	struct st *s = vs;
 	int n = 0;
-	if (s->dead || s->pb->size > 4096 || s->len > 8192)
+	if (s->dead)
 		return 0;
 	(void)cap;
+	if (!s->started)
+	{
+		int ns = mc_tier ? NSTART : 3;
+		for (int a = 0; a < ns; a++)
+			ops[n++] = (K_START << 8) | a;
+		return n;
+	}
+	if (s->pb->size > s->cap_size || s->len > 2 * s->cap_size || s->len + 2 * s->pb->size + 400 >= MODEL_CAP)
+		return 0;
 	for (int a = 0; a < NAPP; a++)
 		ops[n++] = (K_APPEND << 8) | a;
 	for (int a = 0; a < NFAST; a++)
@@ -314,6 +352,7 @@ static uint64_t key(void *vs)
 	h = mc_hash(&s->pb->bpos, sizeof(int), h);
 	h = mc_hash(&s->pb->size, sizeof(int), h);
 	h = mc_hash(&s->dead, sizeof(int), h);
+	h = mc_hash(&s->started, sizeof(int), h);
 	return h;
 }
 static void destroy(void *vs, int check)
@@ -337,7 +376,7 @@ static void describe(sb_t *o)
 static void enumerate(void)
 {
 	struct bfs_stats st;
-	bfs_run(&cb, (int)mc_opt_int("depth", mc_tier ? 5 : 4), mc_tier ? 3000000 : 600000, &st);
+	bfs_run(&cb, (int)mc_opt_int("depth", mc_tier ? 6 : 5), mc_tier ? 12000000 : 3000000, &st);
 	MC_COUNT("states", st.states);
 	MC_COUNT("transitions", st.transitions);
 	MC_MAX("depth_completed", st.max_depth_done);
